@@ -4,18 +4,20 @@ from shell import c04
 from shell import replayers
 ID = "C04"
 LEVEL = "other"
-FUNCTIONS = ["body:Transmitter._create_partitions#0", "body:IEvent.notify#0", "TradingEnv.notify"]
+FUNCTIONS = ["body:Transmitter._create_partitions#0", "body:IEvent.notify#0", "TradingEnv.notify", "TradingEnv._process_latent_events", "TradingEnv._process_nonlatent_events"]
 SHELL = [c04.delivery]
 LEVEL_TEXT = ("Deductive kernel: (i) the partition slot of an arbitrary event (body of the loop of Transmitter._create_partitions over a "
               "strictly increasing grid of symbolic length): stored exactly once, under the first timestep at or after its stamp, latent iff "
               "stamp - previous timestep <= latency, never stored after the last timestep; (ii) IEvent.notify's loop body: the callback of an "
               "observer is invoked exactly once iff it subscribes to the event's type; (iii) TradingEnv.notify: both clocks equal the event's "
               "time when it is dispatched, a new-date notification stamped with the previous event's time precedes it iff the date changed "
-              "(D4 fixed). Bounded shell: recording observer over enumerated grids/placements/latencies/folds/warm-up/markov and two "
+              "(D4 fixed); (iv) TradingEnv._process_latent_events/_process_nonlatent_events (loops over a batch of symbolic length, index invariant): "
+              "every buffered event is notified exactly once in list order, nothing with a stamp before the clock is notified, the clock ends at the last stamp, "
+              "the latent buffer is emptied, _done is only ever set (on StopIteration). Bounded shell: recording observer over enumerated grids/placements/latencies/folds/warm-up/markov and two "
               "consecutive episodes (completeness, exactly-once, order, on-time, latency side, stamps). D13 is a recorded finding.")
 EXPLANATION = LEVEL_TEXT
 NOT_DEDUCTIVE = ["whole-episode conclusions (completeness across the replay window, repeated episodes on one environment, global order of the log): bounded shell; "
-                 "Transmitter._reset/_next (numpy masks, itertools) and TradingEnv._process_*_events (ASSUMED contracts) are not verified deductively"]
+                 "Transmitter._reset/_next (numpy masks, itertools) are not verified deductively: Transmitter._next is an ASSUMED summary (raises StopIteration or returns the two batches of the next timestep, each in stamp order and after the clock)"]
 
 REPLAYERS = [
     ("Transmitter._create_partitions::loop0::body", replayers.partition_slot),
